@@ -8,6 +8,7 @@ require (
 	go.etcd.io/gofail v0.2.0
 	go.sia.tech/core v0.21.7
 	go.sia.tech/coreutils v0.23.5
+	go.sia.tech/mux v1.5.3
 	go.uber.org/zap v1.28.0
 	golang.org/x/crypto v0.54.0
 )
@@ -17,7 +18,6 @@ require (
 	github.com/quic-go/qpack v0.6.0 // indirect
 	github.com/quic-go/quic-go v0.60.0 // indirect
 	github.com/quic-go/webtransport-go v0.11.1 // indirect
-	go.sia.tech/mux v1.5.3 // indirect
 	go.uber.org/multierr v1.11.0 // indirect
 	golang.org/x/net v0.56.0 // indirect
 	golang.org/x/sys v0.47.0 // indirect
